@@ -346,6 +346,23 @@ Definition step (v : variant) (s : sys) (sl : slabel) : sys :=
 
 Definition run (v : variant) (s : sys) (sched : list slabel) : sys := fold_left (step v) sched s.
 
+(* what the reader does with a CONNACK packet: connack.go:56-68 (Parse) then serve.go:57-66.
+   hflag = low nibble of the fixed header, contents = the variable header. Any return code byte
+   and any acknowledge-flags byte are accepted by the parser; session present = bit 0 of the flags
+   byte (the other seven bits are ignored); ONLY return code 0 accepts (connect.go:155). *)
+Definition connack_parse (hflag : N) (contents : list N) : errc + (bool * N) :=
+  if negb (hflag =? 0) then inl EInvalidPacket
+  else match contents with
+       | [f; code] => inr (N.odd f, code)
+       | _ => inl EInvalidLength
+       end.
+
+Definition connack_label (hflag : N) (contents : list N) : label :=
+  match connack_parse hflag contents with
+  | inl e => LServeFail e
+  | inr (_, code) => LPeerConnAck code
+  end.
+
 (* was the label enabled? (used by the correspondence: every label the harness claims to have
    realised must be enabled in the model) *)
 Definition enabled (v : variant) (s : sys) (sl : slabel) : bool :=
